@@ -188,6 +188,7 @@ def run(ctx):
     ctx.count("real_hmac_cases", n_real)
     through_cache(ctx, g, hashes)
     across_l0(ctx, g, hashes)
+    dc_seeds_through_cache(ctx, g, hashes)
 
     # ---- thorough: the entire lattice against the spec chain (fast KDF), step counts against the model
     if ctx.thorough:
@@ -297,6 +298,38 @@ def across_l0(ctx, g, hashes):
         c.time = old
 
 
+
+def dc_seeds_through_cache(ctx, g, hashes):
+    """seed envelopes as a DC returns them (every MS-GKDI 2.2.4 shape: L2 = 31 with / without an L2 key; L2 ≠ 31 with the previous L1 key,
+    none at L1 = 0), stored in a KeyCache the way the client stores a reply, then handed out again for every covered position: the key that
+    derives from what the cache hands out must be the chain's (independent HMAC chain) — storing a seed must not lose material"""
+    import dpapi_ng
+    sd = b"\x01\x00\x04\x80" + bytes(16)
+    root = bytes(range(2, 66))
+    hn, h = "sha512", hashes.SHA512()
+    spec = SpecChain(lambda k, cc: kbkdf_hmac(hn, k, LABEL, cc, 64), root, sd, 361)
+    for (a, b) in ((6, 7), (6, 31), (1, 1), (0, 5), (0, 31), (31, 30), (31, 31), (17, 0)):
+        for (k1, k2) in spec.envelopes(a, b):
+            cache = dpapi_ng.KeyCache()
+            cache._store_key(sd, gen.make_env(l0=361, l1=a, l2=b, l1_key=k1, l2_key=k2, root_key_identifier=RK, kdf_parameters=gen.kdf_params("SHA512")))
+            with toycrypto.recording() as rlog:
+                for (r1, r2) in {(a, b), (a, max(b - 1, 0)), (a, 0), (max(a - 1, 0), 31), (max(a - 1, 0), 4), (0, 0)}:
+                    if (r1, r2) > (a, b):
+                        continue
+                    rlog.reset_budget()
+                    try:
+                        env = cache._get_key(sd, RK, 361, r1, r2)
+                        got = g.compute_l2_key(h, r1, r2, env) if env is not None else b"not served from the cache"
+                    except Exception as e:  # noqa
+                        got = ("raised " + type(e).__name__).encode()
+                    ctx.count("dc_seed_through_cache")
+                    if got != spec.K2[(r1, r2)]:
+                        ctx.violation("a DC seed envelope stored in the cache no longer yields the chain's key for a position it covers",
+                                      {"scenario": "dc_seeds_through_cache", "envelope": [a, b], "l1_key": "present" if k1 else "empty", "l2_key": "present" if k2 else "empty",
+                                       "request": [r1, r2]}, (got if got[:1] in (b"r", b"n") else hx(got)[:32].encode()).decode(), hx(spec.K2[(r1, r2)])[:32])
+                        return
+
+
 def lattice(ctx, g, hashes, sd, root, l0):
     calls = [0]
 
@@ -366,6 +399,12 @@ def replay(ctx, payload):
     if v.get("scenario") == "through_cache":
         c2 = type(ctx)(ctx.prop, "quick", ctx.seed)
         through_cache(c2, g, hashes)
+        for x in c2.violations:
+            print(" ", x["what"], x["input"], x["observed"])
+        return not c2.violations
+    if v.get("scenario") == "dc_seeds_through_cache":
+        c2 = type(ctx)(ctx.prop, "quick", ctx.seed)
+        dc_seeds_through_cache(c2, g, hashes)
         for x in c2.violations:
             print(" ", x["what"], x["input"], x["observed"])
         return not c2.violations
